@@ -17,6 +17,7 @@
 
 #include <ext/alloc_traits.h>  // for __alloc_traits<>::value_type
 #include <string.h>            // for size_t
+#include <sys/stat.h>          // for stat
 #include <algorithm>           // for copy, max
 #include <array>               // for array
 #include <fstream>             // for operator<<, ostringstream, basic_ostream
@@ -306,6 +307,26 @@ namespace DFS
       }
     *vol = *got;
     return true;
+  }
+
+  void StorageConfiguration::note_image_file(const std::string& name)
+  {
+    image_files_.push_back(name);
+  }
+
+  bool StorageConfiguration::is_image_file(const std::string& path) const
+  {
+    struct stat target;
+    if (0 != stat(path.c_str(), &target))
+      return false;
+    for (const std::string& name : image_files_)
+      {
+	struct stat image;
+	if (0 == stat(name.c_str(), &image)
+	    && image.st_dev == target.st_dev && image.st_ino == target.st_ino)
+	  return true;
+      }
+    return false;
   }
 
   std::vector<drive_number> StorageConfiguration::get_all_occupied_drive_numbers() const
